@@ -88,8 +88,9 @@ const (
 	zvC08Static
 )
 
-// Preference (best first): own (on eBGP sessions) > ebgpX > noadv > noexport > own (on iBGP sessions) > ibgpY;
-// the first four tie up to the router-id step and are ECMP-equal, ibgpY loses on AS_PATH length.
+// The four eBGP-learned paths (own on eBGP sessions, ebgpX, noadv, noexport) tie up to the router-id step and are
+// ECMP-equal, ibgpY loses on AS_PATH length; BFS over all subsets makes every path the best / second best somewhere.
+// The reference never ranks paths itself: it reads the order from the Loc-RIB.
 func zvC08Descs(cfg zvC08Cfg) []zvC08Desc {
 	ds := []zvC08Desc{
 		{Name: "ebgpX", EBGP: true, Src: [4]byte{10, 1, 0, 1}, NH: [4]byte{10, 1, 0, 1}, BGPID: 0x0a010001, LP: 100, ASNs: []uint32{65101}},
